@@ -18,7 +18,7 @@ from .values import (
 _qc = itertools.count(1)
 
 DSL_NAMES = {"forall", "exists", "forall_range", "exists_range", "forall_keys", "exists_key", "forall_int",
-             "forall_of", "exists_of", "implies", "iff", "ite", "same", "type_is", "old", "pre", "dpos", "dsize",
+             "forall_of", "exists_of", "implies", "iff", "ite", "same", "type_is", "old", "pre", "dpos", "dpos_exact", "dsize",
              "opt_val", "str_of_int", "type_name", "str_of_type", "result_is_fresh", "uf"}
 
 
@@ -122,6 +122,10 @@ class SpecSet:
                     if st.targets[0].id.isupper():
                         raise Unsupported(f"{path}: configuration constant {st.targets[0].id} is not a literal")
             elif isinstance(st, ast.FunctionDef):
+                if st.name in self.fns and self.fns[st.name].module != modname:
+                    # spec helpers share one namespace: a silent override would change other contracts' meaning
+                    raise Unsupported(f"{path}: spec function '{st.name}' is already defined in "
+                                      f"{self.fns[st.name].module}.py")
                 self.fns[st.name] = SpecFn(st.name, st, modname)
             elif isinstance(st, ast.ClassDef):
                 self._load_contract(st, modname, consts)
@@ -644,11 +648,16 @@ class DslMixin:
                 raise Unsupported("pre() outside a loop invariant")
             env, cells = fr.loop_ctx[-1]
             return self._eval_in(env, cells, node.args[0])
-        if name == "dpos":
+        if name in ("dpos", "dpos_exact"):
             d = self.evv(node.args[0])
             k = self.coerce(self.evv(node.args[1]), d.ty.args[0]).term
             sorted_ = len(node.args) > 2
-            _, _, posf = self.dict_order(d, sorted_)
+            _, order, posf = self.dict_order(d, sorted_)
+            if name == "dpos_exact":
+                # the instance  order[pos(k)] == k  for this very key (the general axiom is left out of dict_order:
+                # it makes every key term spawn new terms); lets a proof go from a key to its iteration index
+                _, has, _ = self.dct(d)
+                self.side_fact(z3.Implies(z3.Select(has(d.term), k), z3.Select(order, posf(d.term, k)) == k))
             return SV(posf(d.term, k), T.INT)
         if name == "dsize":
             d = self.evv(node.args[0])
